@@ -393,7 +393,7 @@ theorem quiet2_block_remove_effect (s : App) (c : CSet) (b : Block) (g : G2 s c)
   obtain ⟨ups, s4, c', he, hc, hag, g4, _, _, _, _, hrec, _⟩ := endBlock_G2 _ c m3 f3
   refine ⟨⟨(runTxs genEnv b.txs s2 [] []).1, ups⟩, s4, c', ?_, hc, g4, ?_⟩
   · unfold block
-    rw [beforeEnd_eq, hbegin]
+    rw [beforeEnd_eq _ _ _ q.noGov, hbegin]
     simp only [he]
   · intro hok
     have hq := q.txs s2 hbegin
@@ -548,7 +548,7 @@ theorem quiet2_block_setPower_effect (s : App) (c : CSet) (b : Block) (g : G2 s 
   obtain ⟨ups, s4, c', he, hc, hag, g4, _, _, _, _, _, hkeep⟩ := endBlock_G2 _ c m3 f3
   refine ⟨⟨(runTxs genEnv b.txs s2 [] []).1, ups⟩, s4, c', ?_, hc, g4, ?_⟩
   · unfold block
-    rw [beforeEnd_eq, hbegin]
+    rw [beforeEnd_eq _ _ _ q.noGov, hbegin]
     simp only [he]
   · intro hok
     have hq := q.txs s2 hbegin
